@@ -131,7 +131,7 @@ static std::vector< Prim > pattern_prims(const std::string &cells, const int per
       const double f = 1. + k / 1024.;
       p[g].rho *= f;
       p[g].P *= 1. + ((k * 7) % 41) / 1024.;
-      const double c = std::sqrt(p[g].P / p[g].rho);
+      const double c = (p[g].rho > 0. && p[g].P > 0.) ? std::sqrt(p[g].P / p[g].rho) : 0.; // exact vacuum stays at rest
       p[g].v[0] += c * (k - 18) / 512.;
       p[g].v[1] -= c * ((k * 3) % 29 - 14) / 512.;
       p[g].v[2] += c * ((k * 5) % 31 - 15) / 512.;
@@ -507,6 +507,16 @@ int main(int argc, char **argv) {
       }
   for (int p = 0; p < 6; ++p)
     patterns.push_back({0, p, -1});
+  // emptiest states (8: denormal density and pressure, 9: exact vacuum) against rest and supersonic gas
+  for (int e : {8, 9})
+    for (int b : {0, 3})
+      for (int m = 0; m < NMASK; ++m) {
+        if (!thorough && m % 3 != 1)
+          continue;
+        patterns.push_back({e, b, m});
+        if (thorough)
+          patterns.push_back({b, e, m});
+      }
   // perturbation variants: VERIF_SEED selects the constant perturbation pattern
   std::vector< int > perturbs = thorough ? std::vector< int >{0, 1 + (int)(A.seed % 7)}
                                          : std::vector< int >{1 + (int)(A.seed % 7)};
